@@ -184,15 +184,21 @@ structure Data where
 def detAt (d : Data) (i : Nat) : Res Int :=
   if i < d.det.size then pure (d.det.getD i 0) else Res.panic
 
+/-- `if k >= 2 { &d[k - 2] } else { &one }` -/
+def detPrev (d : Data) (k : Nat) : Res Int := if k ≥ 2 then detAt d (k - 2) else pure 1
+
 /-- Rust's `/` on integers (`panic` on a zero divisor) -/
 def idiv (a b : Int) : Res Int := if b = 0 then Res.panic else pure (a.tdiv b)
 
-/-- `DivRound::div_round` of `yui/src/misc/int_ext.rs` (exact; ties away from zero) -/
+/-- `DivRound::div_round` of `yui/src/misc/int_ext.rs` (exact; ties away from zero; magnitudes are compared
+negated as in the code) -/
 def divRound (a b : Int) : Res Int :=
   if b = 0 then Res.panic else
     let quo := a.tdiv b
-    let rem := (a.tmod b).natAbs
-    if (b.natAbs : Int) - rem ≤ (rem : Int) then
+    let rem := a.tmod b
+    let nr := if 0 < rem then -rem else rem
+    let nb := if 0 < b then -b else b
+    if nr ≤ nb - nr then
       if decide (a < 0) == decide (b < 0) then pure (quo + 1) else pure (quo - 1)
     else pure quo
 
@@ -203,7 +209,7 @@ def dotRow (n : Nat) (x y : Nat → Int) : Int := sumLt n fun c => x c * y c
 
 /-- `orthogonalize`: integral Gram–Schmidt data `(l, d)` of the rows of `b` (the matrix `c` is internal) -/
 def orthogonalize (m n : Nat) (b : Mat) : Res (Mat × Array Int) := do
-  if m = 0 then Res.panic   -- `d[0]` on an empty vector
+  Res.assert (m != 0)   -- `d[0]` on an empty vector
   let d0 : Array Int := (Array.replicate m 1).set! 0 (dotRow n (ent b 0) (ent b 0))
   let init : Res (Mat × Mat × Array Int) := pure (mkMat m n (ent b), zeroMat m m, d0)
   let r ← (List.range (m - 1)).foldl (init := init) fun acc i' => do
@@ -214,7 +220,7 @@ def orthogonalize (m n : Nat) (b : Mat) : Res (Mat × Array Int) := do
       let l0 := dotRow n (ent b i) (ent c j)
       let dd0 := if j > 0 then d.getD (j - 1) 0 else 1
       let dd1 := d.getD j 0
-      if dd0 = 0 then Res.panic
+      Res.assert (dd0 != 0)   -- division by zero below
       let c' := mkMat m n fun r col =>
         if r = i then (ent c i col * dd1 - ent c j col * l0).tdiv dd0 else ent c r col
       let l' := mkMat m m fun r col => if r = i ∧ col = j then l0 else ent l r col
@@ -233,7 +239,7 @@ def Data.setup (d : Data) : Res Data := do
 def Data.lovaszOk (d : Data) (k : Nat) : Res Bool := do
   Res.assert (decide (0 < k))
   let (p, q) := alphaZ
-  let d0 ← if k ≥ 2 then detAt d (k - 2) else pure 1
+  let d0 ← detPrev d k
   let d1 ← detAt d (k - 1)
   let d2 ← detAt d k
   let l0 := ent d.lam k (k - 1)
@@ -270,10 +276,10 @@ def Data.swap (d : Data) (k : Nat) : Res Data := do
   -- λ[k-1, ..] <--> λ[k, ..] on the columns 0..k-1
   let lam1 := mkMat m m fun a b =>
     if b < k - 1 then ent d.lam (if a = k - 1 then k else if a = k then k - 1 else a) b else ent d.lam a b
-  let d0 ← if k ≥ 2 then detAt d (k - 2) else pure 1
+  let d0 ← detPrev d k
   let d1 ← detAt d (k - 1)
   let d2 ← detAt d k
-  if d1 = 0 then Res.panic
+  Res.assert (d1 != 0)   -- division by zero below
   let l0 := ent lam1 k (k - 1)
   -- rows i > k: each iteration of the Rust loop reads row i and λ[k,k-1] only
   let lam2 := mkMat m m fun a b =>
@@ -293,6 +299,9 @@ def Data.mulRow (d : Data) (i : Nat) (r : Int) : Res Data := do
   let tr ← d.tr.mulRow i r
   let m := d.tr.m
   pure { d with tr := tr, lam := mMulCol m m (mMulRow m m d.lam i r) i r }
+
+/-- `if !u.is_one() { self.data.mul_row(i, &u) }` -/
+def Data.mulRowIf (d : Data) (i : Nat) (u : Int) : Res Data := if u ≠ 1 then d.mulRow i u else pure d
 
 /-- `LLLData::nz_col_in` -/
 def Data.nzColIn (d : Data) (i : Nat) : Option Nat :=
@@ -335,7 +344,7 @@ def hnfReduce (d : Data) (i k : Nat) : Res Data := do
   | some j =>
     let a := ent d.tr.target i j
     let u : Int := if a < 0 then -1 else 1
-    let d ← if u ≠ 1 then d.mulRow i u else pure d
+    let d ← d.mulRowIf i u
     let a0 := ent d.tr.target i j
     let a1 := ent d.tr.target k j
     let q ← divRound a1 a0
@@ -371,7 +380,7 @@ def hnfNormalizeLast (d : Data) : Res Data :=
     | some j =>
       let a := ent d.tr.target i j
       let u : Int := if a < 0 then -1 else 1
-      if u ≠ 1 then d.mulRow i u else pure d
+      d.mulRowIf i u
     | none => pure d
   else pure d
 
@@ -389,5 +398,34 @@ def lllHnf (fuel m n : Nat) (A : Mat) : Res Tr := do
   let d ← loopWhile hnfIterate fuel (Data.new m n A)
   let d ← hnfNormalizeLast d
   reverseRows d.tr (d.tr.m / 2) 0
+
+/-! ## bookkeeping probe (explored, not proved): `det`/`lambda` against a recomputation from scratch -/
+
+/-- do `det`, `lambda` (strictly lower triangle) equal `orthogonalize` of the rows of `rows`? -/
+def bookOk (d : Data) (rows : Mat) (n : Nat) : Bool :=
+  match orthogonalize d.tr.m n rows with
+  | .ok (l, dd) =>
+    (allLt d.tr.m fun i => d.det.getD i 0 == dd.getD i 0)
+    && (allLt d.tr.m fun i => allLt i fun j => ent d.lam i j == ent l i j)
+  | _ => false
+
+/-- `loopWhile` that checks `bookOk` before every iteration and at the end; returns the number of iterations -/
+def loopBook (it : Data → Res Data) (rowsOf : Data → Mat × Nat) : Nat → Nat → Data → Res (Option Nat)
+  | 0, _, _ => Res.err
+  | fuel + 1, cnt, d =>
+    let (rows, n) := rowsOf d
+    if !(bookOk d rows n) then pure none
+    else if d.step < d.tr.m then do let d' ← it d; loopBook it rowsOf fuel (cnt + 1) d'
+    else pure (some cnt)
+
+/-- LLL mode: `det/lambda` are the integral Gram–Schmidt data of the rows of `target` -/
+def bookLll (fuel m n : Nat) (A : Mat) : Res (Option Nat) := do
+  let d ← (Data.new m n A).setup
+  loopBook lllIterate (fun d => (d.tr.target, d.tr.n)) fuel 0 d
+
+/-- Hermite mode (Havas–Majewski–Matthews): `det/lambda` are the integral Gram–Schmidt data of the rows of `P` -/
+def bookHnf (fuel m n : Nat) (A : Mat) : Res (Option Nat) :=
+  if m = 0 then pure (some 0) else
+  loopBook hnfIterate (fun d => (d.tr.p, d.tr.m)) fuel 0 (Data.new m n A)
 
 end Yuiv.C10
